@@ -953,7 +953,7 @@ fn window_scenarios(rep: &mut Report, prop: &str, args: &Args, rounds: u64) {
                 disarm_all();
                 set_current(None);
             }
-            if rep.violation_count >= 8 || rep.inconclusive.len() >= 3 {
+            if (rep.violation_count >= 8 || SPIN_SEEN.load(std::sync::atomic::Ordering::SeqCst)) || rep.inconclusive.len() >= 3 {
                 return;
             }
         }
@@ -1303,7 +1303,7 @@ fn main() {
             for i in 0..cases {
                 let cs = only.unwrap_or_else(|| mix(&[seed, 0xD409, shard, i]));
                 droprace_case(&mut rep, &prop, &args, cs);
-                if only.is_some() || rep.violation_count >= 4 || rep.inconclusive.len() >= 3 {
+                if only.is_some() || (rep.violation_count >= 4 || SPIN_SEEN.load(std::sync::atomic::Ordering::SeqCst)) || rep.inconclusive.len() >= 3 {
                     break;
                 }
             }
@@ -1313,7 +1313,7 @@ fn main() {
             for i in 0..cases {
                 let cs = only.unwrap_or_else(|| mix(&[seed, 0xB10C, shard, i]));
                 blocked_case(&mut rep, &prop, &args, cs);
-                if only.is_some() || rep.violation_count >= 6 || rep.inconclusive.len() >= 3 {
+                if only.is_some() || (rep.violation_count >= 6 || SPIN_SEEN.load(std::sync::atomic::Ordering::SeqCst)) || rep.inconclusive.len() >= 3 {
                     break;
                 }
             }
@@ -1377,7 +1377,7 @@ fn main() {
                 if rep.want_sample() {
                     rep.sample(|| jobj! {"config" => cfg.json(), "event_log(first 25)" => log_json(&out.log, 25)});
                 }
-                if only.is_some() || rep.violation_count >= 8 || rep.inconclusive.len() >= 3 {
+                if only.is_some() || (rep.violation_count >= 8 || SPIN_SEEN.load(std::sync::atomic::Ordering::SeqCst)) || rep.inconclusive.len() >= 3 {
                     break;
                 }
             }
